@@ -89,6 +89,11 @@ macro_rules! impl_table_traits {
 
             impl_table_gen_funcs!($field);
             impl_table_gen_setter!($entry, $field);
+
+            #[inline(always)]
+            fn is_mapping_table() -> bool {
+                true
+            }
         }
     };
 }
@@ -161,6 +166,14 @@ pub trait Table: From<Qcow2IoBuf<Self::Entry>> {
         table.set_offset(offset);
 
         table
+    }
+
+    /// If this is one (slice of) mapping table, whose entries refer to
+    /// clusters allocated when the entry is set: the refcounts of these
+    /// clusters have to be durable before the table reaches disk
+    #[inline(always)]
+    fn is_mapping_table() -> bool {
+        false
     }
 
     #[inline(always)]
